@@ -52,6 +52,7 @@ BIG = 'BIG-' + 'x' * 12 + '\n' + 'y' * 10            # file-backed, written in t
 BIG2 = 'BIG2' + 'z' * 12 + '\n' + 'w' * 10
 SMALL = 'sm'
 EXPECTED_SIGS = ('block_crash_lost_file',)
+KILL_RECORDS = []       # one per kill point: see run_workload
 SETUP_NOW = 900.0
 
 
@@ -376,6 +377,10 @@ def run_workload(ctx, res, stats, wl, points=None):
             continue
         viol, info = inspect(d, kind, wl, k, clock)
         viol = classify(viol, wl, k)
+        KILL_RECORDS.append({'workload': wl['name'], 'kind': kind, 'setup': wl['setup'], 'program': wl['program'], 'kill_n': kn,
+                             'kill_event': k.get('kill_event'), 'events': k['events'], 'finished': [rec['index'] for rec in k['records']],
+                             'in_flight': k['started'], 'contents': [[x[0], x[1], x[2]] for x in info['snap']['items']] if info else None,
+                             'unreferenced_files': info['debris'] if info else None})
         stats['kills'] += 1
         stats['kills_by_event'][k['kill_event']] = stats['kills_by_event'].get(k['kill_event'], 0) + 1
         if info:
@@ -494,13 +499,85 @@ def soak(ctx, res, stats, rounds=40):
         shutil.rmtree(d, ignore_errors=True)
 
 
+CONC_PROGRAMS = [
+    ([[{'op': 'set', 'key': 'a', 'value': BIG, 'retry': True}, {'op': 'incr', 'key': 'c', 'retry': True}, {'op': 'pop', 'key': 'a', 'retry': True}],
+      [{'op': 'incr', 'key': 'c', 'retry': True}, {'op': 'set', 'key': 'b', 'value': BIG2, 'retry': True}, {'op': 'get', 'key': 'a'}]], []),
+    ([[{'op': 'set', 'key': 'a', 'value': BIG2, 'retry': True}, {'op': 'delete', 'key': 'b', 'retry': True}],
+      [{'op': 'add', 'key': 'a', 'value': 1, 'retry': True}, {'op': 'get', 'key': 'b'}, {'op': 'incr', 'key': 'n', 'retry': True}]],
+     [{'op': 'set', 'key': 'a', 'value': BIG}, {'op': 'set', 'key': 'b', 'value': BIG}]),
+]
+
+
+def concurrent_kills(ctx, res, stats, stride):
+    """Two PROCESSES under the process scheduler; process 0 is SIGKILLed while parked before its n-th event (possibly
+    holding the write lock, with process 1 spinning on BEGIN).  Process 1 must finish all its calls, and the results
+    and final contents must be explained with process 0's interrupted call applied or not."""
+    for pi, (programs, setup) in enumerate(CONC_PROGRAMS):
+        seqs = concdrv.solo_events(ctx, programs, settings=SETTINGS, setup=setup)
+        n0 = len(seqs[0])
+        for n in range(0, n0, stride):
+            lead = min(n, ctx.rng.randrange(0, n + 1) if n else 0)
+            schedule = [0] * lead + [1] * ctx.rng.randrange(0, 6) + [0] * n0
+            r = concdrv.run_processes(ctx, programs, schedule, settings=SETTINGS, setup=setup, kill_at={0: n}, max_steps=3000)
+            case = {'check': 'conc-kill', 'programs': programs, 'setup': setup, 'schedule': r['schedule_used'], 'kill_at': n}
+            stats['concurrent_kills'] = stats.get('concurrent_kills', 0) + 1
+            res.count(['conc-kill', pi, n, r['schedule_used']], nontrivial=True)
+            viol = []
+            if r['overflow']:
+                viol.append(('survivor_blocked', 'after process 0 was killed before its event %d the other process did not finish within the step budget' % n))
+            if r['errors'][1] is not None:
+                viol.append(('survivor_failed', 'the surviving process ended with %r' % r['errors'][1]))
+            for rec in r['calls'][1]:
+                if rec.get('exc') and rec['exc'] not in ('KeyError',):
+                    viol.append(('survivor_failed', 'the surviving process: %s raised %s' % (rec['op'], rec['exc'])))
+            if not viol:
+                try:
+                    with instr.Installed(r['clock']):
+                        snap = concdrv.api_snapshot(r['dir'], 'cache')
+                except Exception as e:  # noqa
+                    snap = None
+                    viol.append(('unusable_after_kill', 'a fresh handle cannot open/read the directory: %r' % e))
+            if not viol:
+                acts = c05.actions_of_calls(r['calls'])
+                done0 = len([x for x in r['calls'][0] if not x.get('pending')])
+                init = c05.make_ref('cache', setup)
+                fin = c05.final_matches('cache', snap)
+                ok = c05.linearize(acts, init, fin, tolerate=True) is not None
+                if not ok and done0 < len(programs[0]):
+                    call = programs[0][done0]
+                    mine = [s for s, (cid, _, _) in enumerate(r['log']) if cid == 0]
+                    first = mine[r['calls'][0][-1]['e1']] if r['calls'][0] and r['calls'][0][-1]['e1'] < len(mine) else (mine[0] if not r['calls'][0] and mine else len(r['log']))
+                    pend = c05.Action('0.%d' % done0, 0, first, len(r['log']) + 1, [(call, ('ok', None))])
+                    ok = c05.linearize(acts + [pend], init, fin, tolerate=True, wild=lambda c: c is call) is not None
+                if not ok:
+                    viol.append(('contents_not_atomic', 'results %r and final contents %r are not explained with the interrupted call applied or not' % (
+                        [[rec['op'], rec.get('result', rec.get('exc'))] for recs in r['calls'] for rec in recs], [[x[0], x[2]] for x in snap['items']])))
+                for key, present, v, e_, t_, filed in snap['items']:
+                    if present and v == MISS:
+                        viol.append(('present_key_unreadable', 'key %r is reported present but reading it yields a miss' % key))
+            for sig, desc in viol[:2]:
+                res.violations.append(fw.Violation(sig, '%s [two processes, process 0 killed before its event %d]' % (desc, n), case))
+                stats['by_sig'][sig] = stats['by_sig'].get(sig, 0) + 1
+            shutil.rmtree(r['dir'], ignore_errors=True)
+            if c05.enough(res, ID, EXPECTED_SIGS):
+                return
+
+
 def new_stats():
     return {'workloads': 0, 'kills': 0, 'kill_points': {}, 'kills_by_event': {}, 'kills_leaving_debris': 0, 'kills_inside_transaction': 0,
             'by_sig': {}, 'event_kinds': Counter()}
 
 
+def correspondence(ctx, res, kill_records):
+    """HOOK for the model correspondence (integrator): apply `crash` of coq/model/Conc.v at the micro-step matching
+    record['events'] (the events executed before the kill; record['kill_event'] is the one that did not execute) and
+    compare the model's db/fs with record['contents'] / record['unreferenced_files']."""
+    return
+
+
 def run(ctx, big=False):
     res = fw.Result()
+    del KILL_RECORDS[:]
     res.rule = ('workloads = every mutating Cache method (set/setitem/add/incr/decr/touch/pop/delete/delitem/push/pull/peek/peekitem/clear/evict/'
                 'expire/cull, lazy cull by a write) x {inline, file-backed, inline<->file} x {plain, inside a transact block}, bulk removals over '
                 '3 pages, Deque and Index operations; each workload = [a finished call, the call under test, a later call]; the child is killed '
@@ -530,6 +607,8 @@ def run(ctx, big=False):
         if _time.time() > deadline or c05.enough(res, ID, EXPECTED_SIGS):
             stats['stopped_early'] = True
             break
+    if not c05.enough(res, ID, EXPECTED_SIGS):
+        concurrent_kills(ctx, res, stats, stride=3 if not thorough else 1)
     if not ctx.quick and not big and not c05.enough(res, ID, EXPECTED_SIGS):
         soak(ctx, res, stats)
     res.witnessed['block_crash_lost_file'] = stats['by_sig'].get('block_crash_lost_file', 0) > 0
@@ -537,8 +616,11 @@ def run(ctx, big=False):
         'workloads_run': stats['workloads'], 'workloads_available': stats['workloads_available'], 'kill_points_total': stats['kills'],
         'kill_points_per_workload': stats['kill_points'], 'kills_by_event_kind': stats['kills_by_event'],
         'kills_inside_an_open_transaction': stats['kills_inside_transaction'], 'kills_leaving_unreferenced_files': stats['kills_leaving_debris'],
-        'violations_by_sig': stats['by_sig'], 'exhaustive': bool(thorough and not stats.get('stopped_early')),
+        'two_process_kill_runs': stats.get('concurrent_kills', 0), 'violations_by_sig': stats['by_sig'], 'exhaustive': bool(thorough and not stats.get('stopped_early')),
         'soak': {k: v for k, v in stats.items() if k.startswith('soak_')}})
+    res.extra_private = {'kill_records': KILL_RECORDS}
+    if not ctx.search_mode:
+        correspondence(ctx, res, KILL_RECORDS)
     return res
 
 
@@ -548,6 +630,19 @@ def search(ctx, broken):
 
 def replay(payload):
     case = payload.get('case', {})
+    if case.get('check') == 'conc-kill':
+        ctx = fw.Ctx('C07', 'quick', 1)
+        try:
+            r = concdrv.run_processes(ctx, case['programs'], case['schedule'], settings=SETTINGS, setup=case['setup'], kill_at={0: case['kill_at']}, max_steps=3000)
+            print('log:', ' '.join('%d:%s' % (c, w) for c, w, _ in r['log']))
+            print('results:', [[rec['client'], rec['op'], rec.get('result', rec.get('exc'))] for recs in r['calls'] for rec in recs], 'errors:', r['errors'], 'overflow:', r['overflow'])
+            with instr.Installed(r['clock']):
+                snap = concdrv.api_snapshot(r['dir'], 'cache', with_check=True)
+            print('contents:', snap['items'], 'check():', snap['check'])
+            ok = not r['overflow'] and r['errors'][1] is None and not any(x[1] and x[2] == MISS for x in snap['items'])
+            return ok
+        finally:
+            ctx.cleanup()
     if case.get('check') != 'kill':
         print(payload)
         return True
